@@ -185,3 +185,21 @@ func init() {
 		return Iface{T: types.NewPointer(met), V: Ptr{Obj: o}}
 	})
 }
+
+// errors.Is: the real function asks internal/reflectlite whether the target is comparable;
+// that one question is answered from go/types, the chain walk (`errors.is`, with the
+// `Is(error) bool` and `Unwrap` methods of the error values) runs from SSA.
+func init() {
+	reg("errors.Is", func(e *Exec, fn *ssa.Function, a []Value) Value {
+		er := a[0].(Iface)
+		tg := a[1].(Iface)
+		if er.T == nil || tg.T == nil {
+			return Bool{C: er.T == nil && tg.T == nil}
+		}
+		is := fn.Pkg.Func("is")
+		if is == nil {
+			e.unsupported("errors.is not found")
+		}
+		return e.callFunction(is, []Value{er, tg, Bool{C: types.Comparable(tg.T)}}, nil, nil)
+	})
+}
